@@ -546,9 +546,13 @@ async def zip_longest(
     if not iterables:
         return
     fill_iter = aiter(_repeat(fillvalue))
-    async_iters = [aiter(it) for it in iterables]
-    del iterables
+    # the iterators are owned as soon as they are obtained: they are closed even
+    # if a later iterable cannot be iterated
+    async_iters: "list[AsyncIterator[Any]]" = []
     try:
+        for iterable in iterables:
+            async_iters.append(aiter(iterable))
+        del iterables, iterable
         remaining = len(async_iters)
         while True:
             values: list[Any] = []
